@@ -493,12 +493,171 @@ def eval_map_cells(ctx, map_size, gfx_size):
     return out, a.calls
 
 
+def eval_extremes(ctx, sizes):
+    """every setter accepts the smallest and the largest value of each
+    documented range (a symbolic value hides an assertion that was narrowed:
+    the evaluator takes assertions on symbolic values as assumptions)"""
+    out = []
+    calls = 0
+    specs = [
+        ('pico8.sfx.sfx:Sfx', 'sfx', sizes.get('sfx', 4352), 'set_note', [
+            ([0, 0], dict(pitch=0, waveform=0, volume=0, effect=0)),
+            ([63, 31], dict(pitch=63, waveform=15, volume=7, effect=7)),
+            ([63, 31], dict(pitch=63)), ([0, 0], dict(waveform=15)),
+            ([0, 0], dict(volume=7)), ([0, 0], dict(effect=7))], {}),
+        ('pico8.sfx.sfx:Sfx', 'sfx', sizes.get('sfx', 4352),
+         'set_properties', [
+             ([0], dict(editor_mode=0, note_duration=0, loop_start=0,
+                        loop_end=0)),
+             ([63], dict(editor_mode=255, note_duration=255, loop_start=255,
+                         loop_end=255))], {}),
+        ('pico8.music.music:Music', 'music', sizes.get('music', 256),
+         'set_channel', [([0, 0, 0], {}), ([63, 3, 63], {}),
+                         ([63, 3, None], {})], {}),
+        ('pico8.gff.gff:Gff', 'gff', sizes.get('gff', 256), 'set_flags',
+         [([0, 0], {}), ([255, 255], {})], {}),
+    ]
+    for (cls, name, size, meth, argsets, _x) in specs:
+        a = Acc(ctx, cls, size, name)
+        prob = None
+        for (args, kw) in argsets:
+            o = a.obj()
+            try:
+                paths = a.call(o, meth, args, kw, allow_fork=True)
+            except AnalysisError:
+                raise
+            calls += 1
+            for (c, r) in paths:
+                if r[0] == 'raise':
+                    prob = '{}({}{}) raises {}'.format(
+                        meth, ', '.join(map(str, args)),
+                        ''.join(', {}={}'.format(k, v)
+                                for k, v in kw.items()), r[1].tname)
+                    break
+            if prob:
+                break
+        out.append(('R-C17-inverse', meth, '{} accepts both ends of every '
+                    'documented range'.format(meth), prob))
+    # map cells: both ends of the value range at both ends of the grid
+    a = Acc(ctx, 'pico8.map.map:Map', sizes.get('map', 4096), 'map')
+    gcls = ctx.model.cls('pico8.gfx.gfx:Gfx')
+    gmem = _mem('gfx', sizes.get('gfx', 8192))
+    prob = None
+    for (x, y, v) in ((0, 0, 0), (127, 31, 255), (0, 32, 255),
+                      (127, 63, 255), (127, 63, 0)):
+        g = CX.Obj(gcls)
+        g.attrs['_data'] = CX.Seq('bytearray', list(gmem))
+        g.attrs['_version'] = 8
+        o = a.obj(_gfx=g)
+        calls += 1
+        for (c, r) in a.call(o, 'set_cell', [x, y, v], allow_fork=True):
+            if r[0] == 'raise':
+                prob = 'set_cell({}, {}, {}) raises {}'.format(x, y, v,
+                                                               r[1].tname)
+        if prob:
+            break
+    out.append(('R-C17-inverse', 'set_cell', 'set_cell accepts both ends of '
+                'every documented range', prob))
+    return out, calls
+
+
+def eval_map_rects(ctx, map_size, gfx_size):
+    """get_rect_tiles / set_rect_tiles on symbolic map and shared gfx memory
+    for rectangles at and across the edges of the 128 x 64 grid"""
+    out = []
+    a = Acc(ctx, 'pico8.map.map:Map', map_size, 'map')
+    gcls = ctx.model.cls('pico8.gfx.gfx:Gfx')
+    gmem = _mem('gfx', gfx_size)
+
+    def mk():
+        g = CX.Obj(gcls)
+        g.attrs['_data'] = CX.Seq('bytearray', list(gmem))
+        g.attrs['_version'] = 8
+        return a.obj(_gfx=g), g
+
+    def cell(x, y):
+        if y <= 31:
+            return a.mem[y * 128 + x]
+        return gmem[4096 + (y - 32) * 128 + x]
+    # (x, y, width, height): inside, across the map/gfx seam, at the right
+    # and bottom edges
+    gets = [(0, 0, 1, 1), (3, 2, 4, 3), (126, 0, 2, 2), (127, 30, 1, 3),
+            (0, 31, 3, 2), (125, 62, 3, 2), (0, 63, 2, 1), (64, 40, 2, 2)]
+    prob = None
+    for (x, y, w, h) in gets:
+        o, g = mk()
+        (c, r), = a.call(o, 'get_rect_tiles', [x, y],
+                         {'width': w, 'height': h})
+        if r[0] == 'raise':
+            prob = 'get_rect_tiles({}, {}, {}, {}) raises {}'.format(
+                x, y, w, h, r[1].tname)
+            break
+        rows = [a.cx.items(row) for row in a.cx.items(r[1])]
+        want = [[(cell(tx, ty) if (ty <= 63 and tx <= 127) else 0)
+                 for tx in range(x, x + w)] for ty in range(y, y + h)]
+        if [len(rw) for rw in rows] != [len(rw) for rw in want]:
+            prob = 'get_rect_tiles({}, {}, {}, {}) returns rows of {} ' \
+                'cells instead of {}'.format(x, y, w, h,
+                                             [len(rw) for rw in rows],
+                                             [len(rw) for rw in want])
+            break
+        for ry, (rw, ww) in enumerate(zip(rows, want)):
+            for rx, (gv, wv) in enumerate(zip(rw, ww)):
+                if _b8(gv) != _b8(wv):
+                    prob = ('get_rect_tiles({}, {}, {}, {}): cell ({}, {}) '
+                            'is {} instead of {}'.format(
+                                x, y, w, h, x + rx, y + ry, _b8(gv),
+                                'the stored tile' if not isinstance(wv, int)
+                                else wv))
+                    break
+            if prob:
+                break
+        if prob:
+            break
+    out.append(('R-C17-inverse', 'get_rect_tiles', 'get_rect_tiles returns '
+                'the addressed cells row by row, 0 beyond column 127 / row '
+                '63', prob))
+    sets = [(0, 0, 2, 2), (126, 0, 3, 2), (0, 31, 2, 2), (126, 62, 3, 3),
+            (127, 63, 1, 1), (5, 63, 2, 2), (64, 40, 3, 1)]
+    prob = None
+    for (x, y, w, h) in sets:
+        o, g = mk()
+        rect = [[field_bv('t{}_{}'.format(ry, rx), 8) for rx in range(w)]
+                for ry in range(h)]
+        (c, r), = a.call(o, 'set_rect_tiles', [[list(rw) for rw in rect],
+                                               x, y])
+        if r[0] == 'raise':
+            prob = 'set_rect_tiles(<{}x{}>, {}, {}) raises {}'.format(
+                w, h, x, y, r[1].tname)
+            break
+        wm, wg = list(a.mem), list(gmem)
+        for ry in range(h):
+            for rx in range(w):
+                tx, ty = x + rx, y + ry
+                if tx > 127 or ty > 63:
+                    continue
+                if ty <= 31:
+                    wm[ty * 128 + tx] = rect[ry][rx]
+                else:
+                    wg[4096 + (ty - 32) * 128 + tx] = rect[ry][rx]
+        d = _same_list(o.attrs['_data'].items, wm) or \
+            _same_list(g.attrs['_data'].items, wg)
+        if d:
+            prob = 'set_rect_tiles(<{}x{}>, {}, {}): {}'.format(w, h, x, y, d)
+            break
+    out.append(('R-C17-frame', 'set_rect_tiles', 'set_rect_tiles stores '
+                'every tile that lies on the grid in its cell, drops the '
+                'rest, touches nothing else', prob))
+    return out, a.calls
+
+
 def report(res, where, results, calls, why):
     for (rule, meth, inst, prob) in results:
         res.check(prob is None, rule, where + '.' + meth,
                   inst + ' (evaluated)',
                   'whole-method evaluation on symbolic memory, sampled '
-                  'addresses ({} calls in this group); the symbolic '
-                  'analysis could not follow the code: {}'.format(
-                      calls, why[:80]),
+                  'addresses ({} calls in this group); {}'.format(
+                      calls, why[:80] if why.startswith('none') else
+                      'the symbolic analysis could not follow the code: ' +
+                      why[:80]),
                   prob or '', '', semantic=True)
